@@ -1,5 +1,5 @@
 """Rule engine: obligations, fact extraction orchestration, evidence, known findings."""
-import fcntl, hashlib, importlib, json, os, subprocess, sys, time, shutil
+import fcntl, glob, hashlib, importlib, json, os, subprocess, sys, time, shutil
 
 from .core import Facts, Inconclusive, short_loc
 
@@ -33,9 +33,9 @@ def tree_hash(repo):
             h.update(fh.read())
         h.update(b'\0')
     # the extractor itself is part of the key
-    drv = os.path.join(VERIF, 'driver', 'src', 'main.rs')
-    with open(drv, 'rb') as fh:
-        h.update(fh.read())
+    for extra in (os.path.join(VERIF, 'driver', 'src', 'main.rs'), os.path.join(VERIF, 'corpus', 'src', 'lib.rs')):
+        with open(extra, 'rb') as fh:
+            h.update(fh.read())
     return h.hexdigest()[:16]
 
 
@@ -79,6 +79,56 @@ def extract(repo, config, log=None):
             f.write('%.1f\n' % (time.time() - t0))
         _gc_facts(keep=th)
         return out, th, True
+    finally:
+        fcntl.flock(lock, fcntl.LOCK_UN)
+        lock.close()
+
+
+def extract_corpus(repo):
+    """Facts of /verif/corpus (one type per supported derive shape) compiled against the derive crates of `repo`.
+    Only the corpus crate goes through the extractor; nothing is executed."""
+    os.makedirs(WORK, exist_ok=True)
+    th = tree_hash(repo)
+    out = os.path.join(WORK, 'facts', th, 'corpus')
+    fact = os.path.join(out, 'savf_corpus.json')
+    tgt_name = os.environ.get('SAVF_TARGET', 'target')
+    lock = open(os.path.join(WORK, 'extract-%s.lock' % tgt_name), 'w')
+    fcntl.flock(lock, fcntl.LOCK_EX)
+    try:
+        if os.path.exists(fact) and os.path.exists(os.path.join(out, 'DONE')):
+            return fact
+        ensure_driver()
+        bdir = os.path.join(WORK, 'corpus-build', tgt_name)
+        shutil.rmtree(bdir, ignore_errors=True)
+        os.makedirs(os.path.join(bdir, 'src'))
+        cdir = os.path.join(VERIF, 'corpus')
+        shutil.copy(os.path.join(cdir, 'src', 'lib.rs'), os.path.join(bdir, 'src', 'lib.rs'))
+        shutil.copy(os.path.join(cdir, 'rust-toolchain.toml'), bdir)
+        shutil.copy(os.path.join(repo, 'Cargo.lock'), os.path.join(bdir, 'Cargo.lock'))
+        with open(os.path.join(cdir, 'Cargo.toml.in')) as fh:
+            tmpl = fh.read()
+        with open(os.path.join(bdir, 'Cargo.toml'), 'w') as fh:
+            fh.write(tmpl.replace('@REPO@', os.path.abspath(repo)))
+        os.makedirs(out, exist_ok=True)
+        if os.path.exists(fact):
+            os.remove(fact)
+        tgt = os.path.join(WORK, tgt_name + '-corpus')
+        for d in glob.glob(os.path.join(tgt, 'debug', '.fingerprint', 'savf_corpus-*')):
+            shutil.rmtree(d, ignore_errors=True)
+        sysroot = subprocess.run(['rustc', '+nightly', '--print', 'sysroot'], stdout=subprocess.PIPE, text=True).stdout.strip()
+        env = dict(os.environ, CARGO_NET_OFFLINE='true', LD_LIBRARY_PATH=os.path.join(sysroot, 'lib'),
+                   RUSTFLAGS='-Zmir-opt-level=0 -Awarnings', SAVF_OUT=out, CARGO_TARGET_DIR=tgt,
+                   RUSTC_WORKSPACE_WRAPPER=os.path.join(VERIF, 'driver', 'target', 'debug', 'factgen'))
+        r = subprocess.run(['cargo', '+nightly', 'check', '--offline'], cwd=bdir, stdout=subprocess.PIPE,
+                           stderr=subprocess.STDOUT, text=True, env=env)
+        shutil.rmtree(bdir, ignore_errors=True)
+        if r.returncode != 0:
+            raise Inconclusive('the derive corpus does not build against %s:\n%s' % (repo, r.stdout[-3000:]))
+        if not os.path.exists(fact):
+            raise Inconclusive('fact file for the derive corpus missing after build')
+        with open(os.path.join(out, 'DONE'), 'w') as f:
+            f.write('ok\n')
+        return fact
     finally:
         fcntl.flock(lock, fcntl.LOCK_UN)
         lock.close()
@@ -142,6 +192,11 @@ class Ctx:
     @property
     def f(self):
         return self.facts('serde_avro_fast')
+
+    def corpus(self):
+        if 'savf_corpus' not in self._facts:
+            self._facts['savf_corpus'] = Facts(extract_corpus(self.repo))
+        return self._facts['savf_corpus']
 
     def has_feature(self, feat):
         return feat in self.f.features
